@@ -1,4 +1,5 @@
 import Pms.Props.C02
+import Pms.Props.C02Mod
 
 #print axioms Pms.Pbc.C02_lattice
 #print axioms Pms.Pbc.C02_frac
@@ -9,3 +10,5 @@ import Pms.Props.C02
 #print axioms Pms.Pbc.abs_le_abs_add_int
 #print axioms Pms.Pbc.C02_orthogonal_shortest
 #print axioms Pms.Pbc.C02_contract_satisfiable
+#print axioms Pms.ModShape.C02_module_shape
+#print axioms Pms.ModShape.C02_body_shape
